@@ -195,3 +195,48 @@ predict = Fn(IG + 'predict', ret='r', level='L1', valid='glm_pred_valid(*self, x
 UNITS.append(Unit('C06_predict', 'C06', [gcoef, predict], use=[c15.is_matrix, c15b.is_design, c05.matmul, c04.KERNELS['vadd'], inv_link], types=TYPES, type_spec=core.TYPE_SPEC,
                   spec=SPEC + FAM_SPEC + PRED_SPEC, preludes=PRE, broadcast=BC, level='L1', rlimit=100,
                   notes='GLM::predict returns the inverse link of X beta plus the offset element by element for a fitted model (Err when not fitted); a shape mismatch or a non-design matrix is rejected'))
+
+# ---------------------------------------------------------------- deviance of each family
+DEV_SPEC = c04.RED_SPEC + r'''
+pub open spec fn r_ylogy(y: real) -> real { if y == 0real { 0real } else { y * r_ln(y) } }
+/// the summand the family's deviance accumulates for one observation (textbook unit deviance divided by the leading factor)
+pub open spec fn dev_term(f: ExponentialFamily, y: real, mu: real) -> real {
+    match f {
+        ExponentialFamily::Gaussian => (y - mu) * (y - mu),
+        ExponentialFamily::Bernoulli => y * r_ln(mu) + (1real - y) * r_ln(1real - mu),
+        ExponentialFamily::QuasiPoisson => mu - y - y * r_ln(mu) + r_ylogy(y),
+        ExponentialFamily::Poisson => mu - y - y * r_ln(mu) + r_ylogy(y),
+        ExponentialFamily::Gamma => (y - mu) / mu - r_ln(y / mu),
+        ExponentialFamily::Exponential => (y - mu) / mu - r_ln(y / mu),
+    }
+}
+pub open spec fn dev_factor(f: ExponentialFamily) -> real { match f { ExponentialFamily::Gaussian => 1real, ExponentialFamily::Bernoulli => -2real, _ => 2real } }
+pub open spec fn dev_sum(f: ExponentialFamily, y: Seq<f64>, mu: Seq<f64>, k: int) -> real decreases k
+{ if k <= 0 { 0real } else { dev_sum(f, y, mu, k - 1) + dev_term(f, rv(y[k - 1]), rv(mu[k - 1])) } }
+/// the squared norm of the residual is the Gaussian sum
+pub proof fn lemma_gauss_dev(d: Seq<f64>, y: Seq<f64>, mu: Seq<f64>, k: int)
+    requires 0 <= k <= d.len(), d.len() == y.len(), d.len() == mu.len(), forall|i: int| 0 <= i < d.len() ==> #[trigger] d[i] == f_sub(y[i], mu[i])
+    ensures dsum(d, d, k) == dev_sum(ExponentialFamily::Gaussian, y, mu, k), dsum(d, d, k) >= 0real
+    decreases k
+{ if k > 0 { lemma_gauss_dev(d, y, mu, k - 1); lemma_sq_nonneg(rv(d[k - 1])); } }
+'''
+DEV_LOOP = lambda fam: {'invariant': ['n == y@.len() && n == mu@.len()', '*self is %s' % fam, '(*self is Gamma || *self is Exponential) ==> forall|i: int| 0 <= i < mu@.len() ==> rv(#[trigger] mu@[i]) != 0real', 'C06.deviance.partial:: rv(acc_) == dev_sum(*self, y@, mu@, t_ as int)']}
+POIS_LOOP = lambda fam: {'invariant': ['n == y@.len() && n == mu@.len()', '*self is %s' % fam, 'ylogy@.len() == n', 'forall|q: int| 0 <= q < n ==> rv(#[trigger] ylogy@[q]) == r_ylogy(rv(y@[q]))',
+                                       'C06.deviance.partial:: rv(acc_) == dev_sum(*self, y@, mu@, t_ as int)']}
+YL = {'params': 'x: &f64', 'ret': 'o: f64', 'ensures': ['rv(o) == r_ylogy(rv(*x))']}
+deviance = Fn(FAM + '{impl ExponentialFamily}::deviance', ret='r', level='L1', valid='y@.len() == mu@.len()', panics={1: 'REJECT'},
+              requires=['C06.deviance.domain:: (*self is Gamma || *self is Exponential) ==> forall|i: int| 0 <= i < mu@.len() ==> rv(#[trigger] mu@[i]) != 0real'],
+              ensures=['C06.deviance.valid:: y@.len() == mu@.len()', 'C06.deviance.family:: rv(r) == dev_factor(*self) * dev_sum(*self, y@, mu@, y@.len() as int)'],
+              rewrites=[('norm(&vsub(y, mu)).powi(2)', '({ let d_ = vsub(y, mu); let nr_ = norm(&d_); proof { lemma_gauss_dev(d_@, y@, mu@, n as int); ax_sqrt(dsum(d_@, d_@, n as int)); } nr_.powi(2) })', 'R31'),
+                        ('(0..n).map(|i| y[i] * mu[i].ln() + (1. - y[i]) * (1. - mu[i]).ln()).sum::<f64>() * -2.',
+                         '({ let mut acc_ = 0.; for t_ in 0..n { acc_ = acc_ + (y[t_] * mu[t_].ln() + (1. - y[t_]) * (1. - mu[t_]).ln()); } acc_ }) * -2.', 'R37: map-sum as its defining loop'),
+                        ('if *x == 0. { 0. } else { x * x.ln() }).collect::<Vec<_>>()', 'if *x == 0. { 0. } else { *x * x.ln() }).collect::<Vec<f64>>()', 'R17 + R26b'),
+                        ('(0..y.len()).map(|i| mu[i] - y[i] - y[i] * mu[i].ln() + ylogy[i]).sum::<f64>()',
+                         '({ let mut acc_ = 0.; for t_ in 0..y.len() { acc_ = acc_ + (mu[t_] - y[t_] - y[t_] * mu[t_].ln() + ylogy[t_]); } acc_ })', 'R37'),
+                        ('(y.iter().zip(mu).map(|(yv, muv)| (yv - muv) / (muv) - (yv / muv).ln()).sum::<f64>())',
+                         '({ let mut acc_ = 0.; for t_ in 0..y.len() { let yv = &y[t_]; let muv = &mu[t_]; acc_ = acc_ + ((*yv - *muv) / (*muv) - (*yv / *muv).ln()); } acc_ })',
+                         'R37 (zip of two slices of equal length: the pairs (y[t], mu[t]) in order) + R17')],
+              closures={1: YL, 2: YL},
+              loops={1: DEV_LOOP('Bernoulli'), 2: POIS_LOOP('QuasiPoisson'), 3: POIS_LOOP('Poisson'), 4: DEV_LOOP('Gamma'), 5: DEV_LOOP('Exponential')})
+UNITS.append(Unit('C06_deviance', 'C06', [deviance], use=[c04.KERNELS['vsub'], c04.norm], types=TYPES, type_spec=core.TYPE_SPEC, spec=SPEC + DEV_SPEC, preludes=PRE, broadcast=BC, level='L1',
+                  notes='the deviance of each of the six families is its leading factor times the sum of its textbook unit terms (residual sum of squares for the Gaussian family; zero counts contribute 2 mu for Poisson); length mismatch rejected'))
